@@ -101,7 +101,8 @@ def run_check(prop: str, tier: str, seed: int, only_spec: dict | None = None) ->
     t0 = time.time()
     ensure_deps()
     mod = importlib.import_module(f"vf.checks.{prop.lower()}")
-    run_dir = ROOT / "run" / prop
+    tag = os.environ.get("VERIF_OUT_TAG")  # scratch runs (break tests on worktrees) must not touch evidence/
+    run_dir = (ROOT / "run" / tag / prop) if tag else (ROOT / "run" / prop)
     shutil.rmtree(run_dir, ignore_errors=True)
     run_dir.mkdir(parents=True, exist_ok=True)
     (ROOT / "run" / "numba").mkdir(parents=True, exist_ok=True)
@@ -168,7 +169,7 @@ def run_check(prop: str, tier: str, seed: int, only_spec: dict | None = None) ->
         else:
             unlisted.append(v)
 
-    rep_dir = ROOT / "replays" / prop
+    rep_dir = (ROOT / "run" / tag / "replays" / prop) if tag else (ROOT / "replays" / prop)
     out_lines = []
     first_replay = None
     if unlisted:
@@ -245,7 +246,7 @@ def run_check(prop: str, tier: str, seed: int, only_spec: dict | None = None) ->
         "repo": str(REPO),
     }
     if only_spec is None:
-        ev_path = ROOT / "evidence" / f"{prop}.json"
+        ev_path = (ROOT / "run" / tag / f"evidence-{prop}.json") if tag else (ROOT / "evidence" / f"{prop}.json")
         ev_path.write_text(json.dumps(evidence, indent=1, default=str))
         try:
             sys.path.insert(0, str(ROOT / ".deps"))
